@@ -59,6 +59,32 @@ def run(ctx):
                                {"alg": alg, "kind": kind, "value": value.decode() if isinstance(value, bytes) else value, "jwk": public_jwk,
                                 "payload": payload.hex()}, f"interop:impl->ref:{kind}:{why.split(':')[0]}")
                 facts(ctx, alg, kind, value, sk)
+    # ---------------- (a2) keys that are exported by joserfc's own encoders (generated / PEM), incl. EC keys whose
+    # coordinates have leading zero octets: the verifier gets nothing but the exported public JWK
+    from harness import keycases as KC
+    from joserfc.jwk import ECKey, OKPKey, RSAKey
+    crv_alg = {"P-256": "ES256", "P-384": "ES384", "P-521": "ES512", "secp256k1": "ES256K"}
+    exported = [(crv_alg[k.curve_name], label, k) for label, k in KC.special_ec_keys(rng)]
+    exported += [("EdDSA", "ed25519-pem", OKPKey.import_key(K.key("ed25519").as_pem())), ("RS256", "rsa-pem", RSAKey.import_key(K.key("rsa2048").as_pem())),
+                 ("ES256", "p256-generated", ECKey.generate_key("P-256"))]
+    for alg, label, sk in exported:
+        public_jwk = sk.as_dict(private=False)
+        for kind in (S.KINDS if ctx.tier != "quick" else ("compact", "flat")):
+            payload = b"payload " + label.encode()
+            prot, unprot = S.headers_for(rng, alg, kind)
+            try:
+                value, _ = S.impl_sign(kind, prot, unprot, payload, sk, {"algorithms": J.ALL_ALGS})
+            except Exception as e:  # noqa: BLE001
+                ctx.report(f"joserfc could not sign with an exported-form key: {err_name(e)}", {"alg": alg, "kind": kind, "key": label}, f"sign-exported:{kind}")
+                continue
+            ctx.count("impl-signs-ref-verifies-exported-jwk", (alg, kind, label), True, f"{alg}:{kind}")
+            try:
+                ok, why = S.ref_verify_public_jwk(kind, value, public_jwk, payload)
+            except Exception as e:  # noqa: BLE001
+                ok, why = False, f"{type(e).__name__}: {e}"
+            if not ok:
+                ctx.report(f"a token signed by joserfc is rejected by the independent implementation given the exported public JWK ({why})",
+                           {"alg": alg, "kind": kind, "key": label, "jwk": public_jwk}, f"interop:exported-jwk:{kind}:{why.split(':')[0]}")
     # ---------------- (b) reference -> joserfc (and the model), arbitrary header spellings
     cases = []
     for _ in range(rounds):
